@@ -298,3 +298,6 @@ _more("C17", "Both inputs rescaled by 1e-8 / 1e+8 (gain invariance).")
 _more("C19", "Files rewritten between two reads of the same path; NaN voxels under >= and <=; from_pdb against the histogram of its ATOM records; center_by_mass.")
 _more("C20", "The plateau finding is attributed by cause: the same image without its constant background must give exactly the planted particles.")
 _more("C18", "split_clusters, inverse_transform and fit_transform of the fitted PCA object.")
+_more("C10", "History independence: six (max_shifts, upsample) landscape calls with colliding integer widths made in forward and in "
+      "reverse order, each order in a fresh interpreter, must give the same landscapes.")
+_more("C13", "Mixed-case Parquet suffixes (.PQ, .Parquet): to_file and from_file must agree on the format.")
